@@ -320,10 +320,6 @@ func selectSetForRecursion(ctx context.Context, scope *ReferenceScope, view *Vie
 		return NewCombinedSetFieldLengthError(set.RHS, view.FieldLen())
 	}
 
-	if rview.RecordLen() < 1 {
-		return nil
-	}
-
 	switch set.Operator.Token {
 	case parser.UNION:
 		if err = view.Union(ctx, scope.Tx.Flags, rview, !set.All.IsEmpty()); err != nil {
@@ -337,6 +333,12 @@ func selectSetForRecursion(ctx context.Context, scope *ReferenceScope, view *Vie
 		if err = view.Intersect(ctx, scope.Tx.Flags, rview, !set.All.IsEmpty()); err != nil {
 			return err
 		}
+	}
+
+	// The recursion ends with the first iteration that returns no record; the set operation has been applied
+	// to what was collected so far also then (a UNION without ALL keeps one of equal records of the first query).
+	if rview.RecordLen() < 1 {
+		return nil
 	}
 
 	if err = rview.Header.Update(tmpViewName, scope.RecursiveTable.Fields); err != nil {
